@@ -106,26 +106,34 @@ CLAIMS = {
         technique="Rocq proof (permutation/sortedness of grouping tree, total string order) + byte-exact correspondence",
         design="§5 C09"),
     "C01": dict(
-        text=("Rocq proof over a handler-by-handler model of ZorgFileCompiler that runs on ANY parse tree: only todo_prefix/"
-              "priority nodes write kind and priority, ZID-/date-shaped identifiers after the identity position change "
-              "neither ZID nor dates, notes reach the output only at the exit of an item, and a page without syntax errors is "
-              "never flagged. The end-to-end statement (one note per item with exactly the written kind, priority, body, line, "
-              "ZID, dates) is decided on every run by compiling generated pages (672 exhaustive one-item pages + random "
-              "structured pages) with the real parser and comparing with the property-level expectation and, field by field, "
-              "with the Coq listener run on the exported ANTLR tree."),
-        note=("PARTIAL: the ANTLR lexer/parser is not modelled (the .g4 lexer rules are translated to Coq regexes and used "
-              "in C07 only); the end-to-end clause is by correspondence + spec check, not by a theorem over rendered pages."),
-        technique="Rocq proof of listener mechanisms over all trees + listener-model correspondence on exported parse trees + spec check",
+        text=("Rocq proof, END-TO-END ON THE LISTENER: for every abstract well-formed page (sections nested H1>H2>H3>H4 and H2 "
+              "before the first H1, any number of blocks and items, every kind / priority / identity form, any number of words "
+              "of every modelled form incl. look-alike identifiers, digit-only tags, dates, ZIDs) the handler-by-handler model of "
+              "ZorgFileCompiler, run on tree_of_page, returns an unflagged page whose notes are exactly spec_page in document "
+              "order, each with its kind, priority, ZID, dates, body, line and metadata in scope "
+              "(C01_page_yields_exactly_its_notes; induction over words, items, blocks, nested sections, a refinement from the "
+              "60-handler state machine to a context-passing reading, plus a proof that document order = block-key order). "
+              "The theorem's hypothesis is decidable (valid_pageb, proved sound). On every run, on generated abstract pages: "
+              "valid_pageb holds, tree_of_page == the tree the real ANTLR parser builds, spec_page == what the real compiler "
+              "returns; plus 672 exhaustive one-item pages and random richer pages (continuation lines, bullets, quoted words, "
+              "URLs, in-block comments) against a property-level oracle and the listener model on the exported tree. The older "
+              "per-handler theorems hold for ANY tree."),
+        note=("PARTIAL: the ANTLR parser is not modelled, so 'the parser builds tree_of_page for this text' is checked "
+              "differentially on every run, not proved; word forms outside the abstract syntax (quoted words, URLs, inline "
+              "properties, multi-line items) are covered by the differential part only."),
+        technique="Rocq proof (refinement of the listener state machine to a page reading, by induction over the page structure) + parse-tree / compiled-notes correspondence on the theorem's domain + spec check on richer pages",
         design="§5 C01"),
     "C02": dict(
-        text=("Rocq proof, for every listener state: leaving an hN section clears that level's tags/date/properties, entering an "
-              "item clears the note level, in-block comments and later header lines record no tags, digit-only tags are "
-              "dropped, for equal property keys the innermost scope wins (dict-union lemma), create date = own > innermost "
-              "dated header > page date > today. End-to-end scoping is decided by an EXHAUSTIVE enumeration of every legal "
-              "section skeleton up to 5 (quick) / 7 (thorough) headers with decorations on every scope, against the "
-              "property-level expectation and the listener model."),
-        note=("PARTIAL as C01. Known finding: an inline property as the first word of a note or bullet adds a junk key."),
-        technique="Rocq proof of scoping mechanisms + exhaustive skeleton enumeration (spec check + listener correspondence)",
+        text=("Rocq proof: the page theorem (C02_scoping_on_pages, as C01) with spec_page reading metadata by scope - a note "
+              "carries the tags/links of the title line, its enclosing headers and its own; a section's title metadata reaches "
+              "its own blocks and sub-sections and not the siblings after it; properties are unioned outer to inner (innermost "
+              "wins); create date = own > innermost dated scope > today - for every nesting and any number of sections. Plus, for "
+              "every listener state and any tree: leaving a section clears its level, entering an item clears the note level, "
+              "comments record nothing, digit-only tags are dropped. On every run: the tie of the theorem (as C01, with tag names "
+              "shared across scopes) and an EXHAUSTIVE enumeration of every legal section skeleton up to 5 (quick) / 7 "
+              "(thorough) headers with decorations on every scope against a property-level oracle and the listener model."),
+        note=("PARTIAL as C01 (parser not modelled). Known finding: an inline property as the first word of a note or bullet adds a junk key."),
+        technique="Rocq proof (page theorem + scoping lemmas) + exhaustive skeleton enumeration (spec check + listener correspondence) + tie on the theorem's domain",
         design="§5 C02"),
     "C08": dict(
         text=("Rocq proof by induction over ALL trees (recovered ones included): with parser errors no note is ever indexed "
